@@ -14,7 +14,7 @@ From XmlRs Require Import Spec.XPathSyntax.
 From XmlRs Require Import Spec.XPathCore Model.XPathFuncs.
 From XmlRs Require Import Model.XPathAst Model.XDoc Model.XPathScalar Model.XPathEval Model.XPathAstAbs.
 From XmlRs Require Import Proofs.XPathEvalEqs Proofs.XPathNav Proofs.XPathSort Proofs.XPathCtx Proofs.XPathAstPred
-  Proofs.XPathInv Proofs.XPathCanon Proofs.XPathAbsEval.
+  Proofs.XPathInv Proofs.XPathTotal Proofs.XPathCanon Proofs.XPathAbsEval.
 From XmlRs Require Proofs.XPathParseMain Proofs.XPathSyntaxLemmas.
 Import ListNotations.
 Open Scope N_scope.
@@ -192,26 +192,49 @@ Qed.
 
 End Inv.
 
-(** ** trees without the namespace axis *)
-Definition step_nons (f : xexpr -> bool) (s : xstep) : bool :=
+(** ** trees whose axes satisfy a condition; in particular: trees without the namespace axis *)
+Definition step_axes (pa : XPathSyntax.axis_spec -> bool) (f : xexpr -> bool) (s : xstep) : bool :=
   match s with
-  | XStep a _ preds => match a with AFull XNamespace => false | _ => true end && forallb f preds
+  | XStep a _ preds => pa a && forallb f preds
   | _ => true
   end.
 
-Fixpoint xnons (a : xexpr) : bool :=
+Fixpoint xaxes (pa : XPathSyntax.axis_spec -> bool) (a : xexpr) : bool :=
   match a with
-  | XBin _ a b => xnons a && xnons b
-  | XNeg a => xnons a
+  | XBin _ a b => xaxes pa a && xaxes pa b
+  | XNeg a => xaxes pa a
   | XLit _ | XPathSyntax.XNum _ | XVar _ | XRoot => true
-  | XCall _ args => forallb xnons args
-  | XParen a => xnons a
-  | XFilter p preds => xnons p && forallb xnons preds
+  | XCall _ args => forallb (xaxes pa) args
+  | XParen a => xaxes pa a
+  | XFilter p preds => xaxes pa p && forallb (xaxes pa) preds
   | XPath st first rest =>
-      match st with SFrom f _ => xnons f | _ => true end
-      && step_nons xnons first
-      && forallb (fun x : sep * xstep => let (_, s) := x in step_nons xnons s) rest
+      match st with SFrom f _ => xaxes pa f | _ => true end
+      && step_axes pa (xaxes pa) first
+      && forallb (fun x : sep * xstep => let (_, s) := x in step_axes pa (xaxes pa) s) rest
   end.
+
+Definition nsfree (a : XPathSyntax.axis_spec) : bool := match a with AFull XNamespace => false | _ => true end.
+Definition anyax (a : XPathSyntax.axis_spec) : bool := true.
+
+Notation xnons := (xaxes nsfree).
+Notation step_nons := (step_axes nsfree).
+
+Lemma xaxes_any : forall a, xaxes anyax a = true.
+Proof.
+  apply (xexpr_ind2 (fun a => xaxes anyax a = true)); try reflexivity.
+  - intros o a b Ha Hb. cbn [xaxes]. now rewrite Ha, Hb.
+  - intros a Ha. exact Ha.
+  - intros f args H. cbn [xaxes]. apply forallb_forall. rewrite Forall_forall in H. exact H.
+  - intros a Ha. exact Ha.
+  - intros p preds Hp H. cbn [xaxes]. rewrite Hp. apply forallb_forall. rewrite Forall_forall in H. exact H.
+  - intros st first rest Hst Hfirst Hrest. cbn [xaxes].
+    assert (Hs : forall s : xstep, step_all (fun a => xaxes anyax a = true) s -> step_axes anyax (xaxes anyax) s = true).
+    { intros s. destruct s as [ax t preds| |]; cbn [step_all step_axes]; try reflexivity. intros H.
+      apply forallb_forall. rewrite Forall_forall in H. exact H. }
+    rewrite (Hs first Hfirst). replace (match st with SFrom f _ => xaxes anyax f | _ => true end) with true
+      by (destruct st; cbn [start_all] in Hst; [reflexivity|reflexivity|symmetry; exact Hst]).
+    apply forallb_forall. rewrite Forall_forall in Hrest. intros [s y] Hy. apply Hs. apply (Hrest (s, y) Hy).
+Qed.
 
 Ltac inv_bind H := let a := fresh "a" in let c1 := fresh "c" in let E := fresh "E" in
   apply bindM_ok_inv in H; destruct H as (a & c1 & E & H).
@@ -227,14 +250,21 @@ Proof.
     + destruct (IH _ _ _ E0 y Hy) as (x' & d1 & lx & d2 & Hx & Hf & Hin). exists x', d1, lx, d2. split; [right; exact Hx|split; assumption].
 Qed.
 
-Section Good.
+(** ** a set [G] of nodes closed under the axes allowed by [pax]: values consist of [G] nodes *)
+Section Closed.
 Variable doc : xdoc.
-Hypothesis Hinv : DocInv doc.
-Notation good := (good doc).
+Variable G : node -> Prop.
+Variable pax : XPathAst.axis_spec -> bool.
+Variable xpa : XPathSyntax.axis_spec -> bool.
+Hypothesis G_axis : forall a i, pax a = true -> G i -> XPathNav.is_ok (axis_nodes doc a i) (Forall G).
+Hypothesis G_parent : forall i p, G i -> parent_node doc i = Some p -> G p.
+Hypothesis G_root_of : forall n, G n -> Forall G (root_of doc n).
+Hypothesis H_conc : forall a, xpa a = true -> pax (conc_axis a) = true.
+Hypothesis H_dos : pax (AxisName AxDescendantOrSelf) = true.
 
-Definition gv (v : xvalue) : Prop := match v with XNodes l => Forall good l | _ => True end.
+Definition gv (v : xvalue) : Prop := match v with XNodes l => Forall G l | _ => True end.
 Definition okg (m : M xvalue) : Prop := forall c v c', m c = (Ok v, c') -> gv v.
-Definition okgl (m : M (list node)) : Prop := forall c l c', m c = (Ok l, c') -> Forall good l.
+Definition okgl (m : M (list node)) : Prop := forall c l c', m c = (Ok l, c') -> Forall G l.
 
 Lemma arith_num f a b v : arith doc f a b = Ok v -> exists x, v = XNum x.
 Proof.
@@ -267,43 +297,43 @@ Proof.
   inv_bind H. apply exec_fn_no_nodes in H. destruct v; try exact I. cbn [no_nodes] in H. subst. constructor.
 Qed.
 
-Lemma okgl_xpreds evs nodes : Forall good nodes -> okgl (xpreds evs nodes).
+Lemma okgl_xpreds evs nodes : Forall G nodes -> okgl (xpreds evs nodes).
 Proof.
   intros Hn c l c' H. apply (xpreds_sub (fun _ _ => True)) in H. destruct H as [Hi _].
   apply Forall_forall. intros x Hx. rewrite Forall_forall in Hn. apply Hn, Hi, Hx.
 Qed.
 
-Lemma okgl_step_sem ax test evs n : not_ns_axis ax = true -> good n -> okgl (step_sem doc ax test evs n).
+Lemma okgl_step_sem ax test evs n : pax ax = true -> G n -> okgl (step_sem doc ax test evs n).
 Proof.
   intros Hax Gn c l c' H. unfold step_sem in H.
-  destruct (good_axis doc Hinv ax n Hax Gn) as [nodes [E Gnodes]]. rewrite E in H. cbn [bind] in H.
+  destruct (G_axis ax n Hax Gn) as [nodes [E Gnodes]]. rewrite E in H. cbn [bind] in H.
   destruct (filter_res (eval_node_test doc (c_ns c) ax test) nodes) as [tested| | |] eqn:Ef; try discriminate.
   apply filter_res_incl in Ef. eapply okgl_xpreds; [|exact H].
   apply Forall_forall. intros x Hx. rewrite Forall_forall in Gnodes. apply Gnodes, Ef.
   unfold axis_sort in Hx. destruct (is_reverse_axis ax); [apply in_rev in Hx|]; apply (proj1 (sort_in doc x tested)); exact Hx.
 Qed.
 
-Lemma expand_good s nodes : Forall good nodes -> exists from, expand doc s nodes = Ok from /\ Forall good from.
+Lemma expand_good s nodes : Forall G nodes -> exists from, expand doc s nodes = Ok from /\ Forall G from.
 Proof.
   intros H. destruct s; cbn [expand]; [eauto|].
-  apply flat_map_res_ok. intros x Hx. rewrite Forall_forall in H.
-  apply (good_axis doc Hinv (AxisName AxDescendantOrSelf) x eq_refl (H x Hx)).
+  apply XPathNav.flat_map_res_ok. intros x Hx. rewrite Forall_forall in H.
+  apply (G_axis (AxisName AxDescendantOrSelf) x H_dos (H x Hx)).
 Qed.
 
 Definition items_good (items : list (sep * sem_step)) : Prop :=
-  Forall (fun i => forall x, good x -> okgl (snd i x)) items.
+  Forall (fun i => forall x, G x -> okgl (snd i x)) items.
 
-Lemma okgl_flat_map_m (f : node -> M (list node)) l : (forall x, good x -> okgl (f x)) -> Forall good l -> okgl (flat_map_m f l).
+Lemma okgl_flat_map_m (f : node -> M (list node)) l : (forall x, G x -> okgl (f x)) -> Forall G l -> okgl (flat_map_m f l).
 Proof.
   intros Hf Hl c r c' H. apply Forall_forall. intros y Hy.
   destruct (flat_map_m_ok_in f l c r c' H y Hy) as (x & c1 & lx & c2 & Hx & Ef & Hin).
-  rewrite Forall_forall in Hl. pose proof (Hf x (Hl x Hx) _ _ _ Ef) as G. rewrite Forall_forall in G. apply G, Hin.
+  rewrite Forall_forall in Hl. pose proof (Hf x (Hl x Hx) _ _ _ Ef) as Gl. rewrite Forall_forall in Gl. apply Gl, Hin.
 Qed.
 
-Lemma step_dedup_good l : Forall good l -> Forall good (step_dedup doc l).
+Lemma step_dedup_good l : Forall G l -> Forall G (step_dedup doc l).
 Proof. intros H. apply Forall_forall. intros x Hx. rewrite Forall_forall in H. apply H. apply (step_dedup_incl doc l [] x Hx). Qed.
 
-Lemma okgl_xstepops items : items_good items -> forall nodes, Forall good nodes -> okgl (xstepops doc items nodes).
+Lemma okgl_xstepops items : items_good items -> forall nodes, Forall G nodes -> okgl (xstepops doc items nodes).
 Proof.
   induction 1 as [|[s f] t Hf _ IH]; intros nodes Hn c l c' H; cbn [xstepops] in H.
   - apply ret_ok_inv in H. destruct H as [-> _]. exact Hn.
@@ -313,44 +343,35 @@ Proof.
 Qed.
 
 Lemma okg_path_sem start first rest :
-  okgl start -> (forall x, good x -> okgl (first x)) -> items_good rest -> okg (path_sem doc start first rest).
+  okgl start -> (forall x, G x -> okgl (first x)) -> items_good rest -> okg (path_sem doc start first rest).
 Proof.
   intros Hs Hf Hr c v c' H. unfold path_sem in H. inv_bind H. inv_bind H. apply ret_ok_inv in H. destruct H as [-> _].
   cbn [gv]. apply Forall_forall. intros y Hy. apply union_finish_incl in Hy. apply (proj1 (sort_in doc y _)) in Hy.
-  assert (G : Forall good a0).
+  assert (Gl : Forall G a0).
   { eapply (okgl_flat_map_m (fun x => ns <- first x ;; xstepops doc rest ns) a); [|eapply Hs; exact E|exact E0].
     intros x Gx c2 l c2' H2. inv_bind H2. eapply okgl_xstepops; [exact Hr| |exact H2]. eapply Hf; [exact Gx|exact E1]. }
-  rewrite Forall_forall in G. apply G, Hy.
+  rewrite Forall_forall in Gl. apply Gl, Hy.
 Qed.
 
-Lemma conc_axis_nons a : match a with AFull XNamespace => false | _ => true end = true -> not_ns_axis (conc_axis a) = true.
-Proof. destruct a as [[]| |]; intros H; try discriminate; reflexivity. Qed.
-
-Lemma okgl_xstep (s : xstep) : step_nons xnons s = true -> forall n, good n -> okgl (xstepf doc s n).
+Lemma okgl_xstep (s : xstep) : step_axes xpa (xaxes xpa) s = true -> forall n, G n -> okgl (xstepf doc s n).
 Proof.
-  destruct s as [ax t preds| |]; cbn [step_nons]; intros H n Gn; unfold xstepf; cbn [xstep_with].
-  - apply andb_prop in H. destruct H as [H1 _]. apply okgl_step_sem; [apply conc_axis_nons, H1|exact Gn].
+  destruct s as [ax t preds| |]; cbn [step_axes]; intros H n Gn; unfold xstepf; cbn [xstep_with].
+  - apply andb_prop in H. destruct H as [H1 _]. apply okgl_step_sem; [apply H_conc, H1|exact Gn].
   - intros c l c' E. apply ret_ok_inv in E. destruct E as [-> _]. constructor; [exact Gn|constructor].
   - intros c l c' E. apply ret_ok_inv in E. destruct E as [-> _]. destruct (parent_node doc n) as [p|] eqn:Ep; cbn [opt_list]; [|constructor].
-    constructor; [|constructor]. apply (good_parent doc Hinv n p Gn Ep).
+    constructor; [|constructor]. apply (G_parent n p Gn Ep).
 Qed.
 
-Lemma xrest_good rest : forallb (fun x : sep * xstep => let (_, s) := x in step_nons xnons s) rest = true -> items_good (xrest doc rest).
+Lemma xrest_good rest : forallb (fun x : sep * xstep => let (_, s) := x in step_axes xpa (xaxes xpa) s) rest = true -> items_good (xrest doc rest).
 Proof.
   intros H. unfold items_good, xrest. apply Forall_map. apply Forall_forall. intros [s y] Hy x Gx. cbn [snd].
   rewrite forallb_forall in H. apply (okgl_xstep y (H (s, y) Hy) x Gx).
 Qed.
 
-Lemma root_of_good n : good n -> Forall good (root_of doc n).
+Theorem xeval_closed : forall a, xaxes xpa a = true -> forall n, G n -> okg (xeval doc a n).
 Proof.
-  intros Gn. unfold root_of. destruct (kind doc n); try (constructor; [exact Gn|constructor]);
-    unfold owner_document; destruct (kind doc n); cbn [opt_list]; try constructor; try constructor; apply (good_root doc Hinv).
-Qed.
-
-Theorem xeval_good : forall a, xnons a = true -> forall n, good n -> okg (xeval doc a n).
-Proof.
-  apply (xexpr_ind2 (fun a => xnons a = true -> forall n, good n -> okg (xeval doc a n))).
-  - intros o a b Ha Hb H n Gn. cbn [xnons] in H. apply andb_prop in H. destruct H as [H1 H2]. cbn [xeval].
+  apply (xexpr_ind2 (fun a => xaxes xpa a = true -> forall n, G n -> okg (xeval doc a n))).
+  - intros o a b Ha Hb H n Gn. cbn [xaxes] in H. apply andb_prop in H. destruct H as [H1 H2]. cbn [xeval].
     apply okg_xbinop; [apply Ha|apply Hb]; assumption.
   - intros a Ha H n Gn c v c' E. cbn [xeval] in E. inv_bind E. apply lift_ok_inv in E. destruct E as [E _].
     apply neg_value_num in E. destruct E as [x ->]. exact I.
@@ -359,13 +380,13 @@ Proof.
   - intros q _ n _ c v c' E. cbn [xeval] in E. unfold xvar in E. destruct (expanded_name (c_ns c) (conc_qname q)) as [[[? ?] ?]| | |]; discriminate.
   - intros f args _ _ n _. cbn [xeval]. apply okg_xcall.
   - intros a Ha H n Gn. cbn [xeval]. apply Ha; assumption.
-  - intros p preds Hp _ H n Gn. cbn [xnons] in H. apply andb_prop in H. destruct H as [H1 H2]. cbn [xeval].
+  - intros p preds Hp _ H n Gn. cbn [xaxes] in H. apply andb_prop in H. destruct H as [H1 H2]. cbn [xeval].
     destruct preds as [|q t]; [apply Hp; assumption|]. intros c v c' E. inv_bind E.
     destruct a as [?|l|?|?]; try (apply lift_ok_inv in E; destruct E; discriminate).
     inv_bind E. apply ret_ok_inv in E. destruct E as [-> _]. cbn [gv]. eapply okgl_xpreds; [|exact E1].
     apply (Hp H1 n Gn _ _ _ E0).
-  - intros _ n Gn c v c' E. apply ret_ok_inv in E. destruct E as [-> _]. cbn [gv]. apply root_of_good, Gn.
-  - intros st first rest Hst _ _ H n Gn. cbn [xnons] in H. apply andb_prop in H. destruct H as [H12 H3].
+  - intros _ n Gn c v c' E. apply ret_ok_inv in E. destruct E as [-> _]. cbn [gv]. apply G_root_of, Gn.
+  - intros st first rest Hst _ _ H n Gn. cbn [xaxes] in H. apply andb_prop in H. destruct H as [H12 H3].
     apply andb_prop in H12. destruct H12 as [H1 H2]. cbn [xeval].
     pose proof (okgl_xstep first H2) as Gf. pose proof (xrest_good rest H3) as Gr.
     destruct st as [|s|f s]; cbn [start_all] in Hst.
@@ -373,12 +394,52 @@ Proof.
       intros c l c' E. apply ret_ok_inv in E. destruct E as [-> _]. constructor; [exact Gn|constructor].
     + apply (okg_path_sem _ (xstepf doc first) (xrest doc rest)); [|exact Gf|exact Gr].
       intros c l c' E. apply lift_ok_inv in E. destruct E as [E _].
-      destruct (expand_good s (root_of doc n) (root_of_good n Gn)) as [from [E' G]]. rewrite E' in E. injection E as <-. exact G.
+      destruct (expand_good s (root_of doc n) (G_root_of n Gn)) as [from [E' Gl]]. rewrite E' in E. injection E as <-. exact Gl.
     + intros c v c' E. inv_bind E. destruct a as [?|fl|?|?]; try (apply lift_ok_inv in E; destruct E; discriminate).
       pose proof (Hst H1 n Gn _ _ _ E0) as Gfl. cbn [gv] in Gfl.
       revert E. apply (okg_path_sem _ (xstepf doc first) (xrest doc rest)); [|exact Gf|exact Gr].
       intros c2 l c2' E. apply lift_ok_inv in E. destruct E as [E _].
-      destruct (expand_good s fl Gfl) as [from [E' G]]. rewrite E' in E. injection E as <-. exact G.
+      destruct (expand_good s fl Gfl) as [from [E' Gl]]. rewrite E' in E. injection E as <-. exact Gl.
+Qed.
+
+End Closed.
+
+(** ** instance 1: good nodes (rows that are not namespace nodes) of a [DocInv] table, no namespace axis *)
+Section Good.
+Variable doc : xdoc.
+Hypothesis Hinv : DocInv doc.
+
+Lemma conc_axis_nons a : nsfree a = true -> not_ns_axis (conc_axis a) = true.
+Proof. destruct a as [[]| |]; intros H; try discriminate; reflexivity. Qed.
+
+Lemma root_of_good n : good doc n -> Forall (good doc) (root_of doc n).
+Proof.
+  intros Gn. unfold root_of. destruct (kind doc n); try (constructor; [exact Gn|constructor]);
+    unfold owner_document; destruct (kind doc n); cbn [opt_list]; try constructor; try constructor; apply (good_root doc Hinv).
+Qed.
+
+Theorem xeval_good : forall a, xnons a = true -> forall n, good doc n -> okg (good doc) (xeval doc a n).
+Proof.
+  apply (xeval_closed doc (good doc) not_ns_axis nsfree (good_axis doc Hinv) (good_parent doc Hinv) root_of_good conc_axis_nons eq_refl).
 Qed.
 
 End Good.
+
+(** ** instance 2: all rows of a well-formed table, every axis *)
+Section Valid.
+Variable doc : xdoc.
+Hypothesis Hwf : XPathNav.DocWf doc.
+
+Lemma root_of_valid n : XPathNav.valid doc n -> Forall (XPathNav.valid doc) (root_of doc n).
+Proof.
+  intros Vn. unfold root_of. destruct (kind doc n); try (constructor; [exact Vn|constructor]);
+    unfold owner_document; destruct (kind doc n); cbn [opt_list]; try constructor; try constructor; apply (XPathNav.wf_root doc Hwf).
+Qed.
+
+Theorem xeval_valid : forall a n, XPathNav.valid doc n -> okg (XPathNav.valid doc) (xeval doc a n).
+Proof.
+  intros a. apply (xeval_closed doc (XPathNav.valid doc) any_axis anyax (XPathTotal.valid_axis doc Hwf) (XPathTotal.valid_parent doc Hwf)
+                     root_of_valid (fun _ _ => eq_refl) eq_refl a (xaxes_any a)).
+Qed.
+
+End Valid.
